@@ -153,9 +153,10 @@ class Gen:
 
   def one(s, depth):
     rng = s.rng
-    k = rng.choices(['alu', 'addi', 'lw', 'sw', 'swlw', 'bump', 'save', 'csrr', 'csrw', 'nop', 'skip', 'loop', 'lwuse', 'alias', 'xw', 'xr', 'xmix'],
-                    [30, 12, 10, 9, 7, 2, 2, 5, 6, 2, 7, 7 if depth < 2 else 0, 7, 7, 3, 3, 5])[0]
+    k = rng.choices(['alu', 'addi', 'lw', 'sw', 'swlw', 'bump', 'save', 'csrr', 'csrw', 'nop', 'skip', 'loop', 'lwuse', 'alias', 'xw', 'xr', 'xmix', 'membr'],
+                    [30, 12, 10, 9, 7, 2, 2, 5, 6, 2, 7, 7 if depth < 2 else 0, 7, 7, 3, 3, 5, 7])[0]
     if k == 'alias': s.alias()
+    elif k == 'membr': s.membr()
     elif k == 'xw': s.emit('csrw', 0, s.src(), 0, s.xcsr())
     elif k == 'xr': s.emit('csrr', s.dst(), 0, 0, s.xcsr())
     elif k == 'xmix': s.xmix()
@@ -209,6 +210,55 @@ class Gen:
       s.emit('bne', 0, c, 0, L)
       s.free_counters.append(c)
       if rng.random() < 0.5: s.shadow()
+
+  def membr(s):
+    """memory operations / csrw proc2mngr DIRECTLY in front of a bne whose operands do not depend on them (the branch reaches
+    X while the instruction ahead still waits in M and, with slow memory, nothing has been fetched behind it), taken and
+    not taken, forward and backward; the FIRST instruction at the target is a csrw of a distinctive value, the fall-through
+    path sends a different one."""
+    rng = s.rng
+    G = G_REGS
+    v, w = rng.sample(G[10:], 2)                                  # marker registers, not load destinations below
+    s.emit('addi', v, 0, 0, rng.choice([0x6b1, 0x5c3, -0x111, 0x7a7])); s.emit('addi', w, 0, 0, rng.choice([0x123, -0x3c5, 0x2e2]))
+    def front():
+      for _ in range(rng.choice([1, 2, 2, 2, 3])):
+        c = rng.random(); p = rng.choice(P_REGS); off = 4 * rng.randint(-6, 6)
+        if c < 0.55: s.emit('lw', rng.choice(G[:10]), p, 0, off)
+        elif c < 0.85: s.emit('sw', 0, p, rng.choice(G + [0]), off)
+        else: s.emit('csrw', 0, rng.choice(G[10:]), 0, 0x7C0)
+    backward = bool(s.free_counters) and rng.random() < 0.35
+    if backward:                                                  # loop whose branch sits right behind memory operations
+      c = s.free_counters.pop(); L = s.label()
+      s.emit('addi', c, 0, 0, rng.randint(2, 4))
+      s.items.append(('label', L))
+      s.emit('csrw', 0, rng.choice([c, v]), 0, 0x7C0)             # first instruction at the target
+      s.emit('addi', c, c, 0, -1)
+      for _ in range(rng.choice([0, 0, 1])): s.emit('addi', w, w, 0, 1)
+      front()
+      s.emit('bne', 0, *rng.choice([(c, 0), (0, c)]), L)
+      s.emit('csrw', 0, w, 0, 0x7C0)
+      s.free_counters.append(c)
+    else:
+      L = s.label(); p = rng.choice(P_REGS)
+      ops = rng.choice([(p, 0), (0, p), (v, w), (v, 0), (0, 0), (v, v), (p, p)])   # the first four are taken
+      front()
+      s.emit('bne', 0, *ops, L)
+      for _ in range(rng.choice([1, 1, 2, 3])):                   # fall-through path
+        if rng.random() < 0.6: s.emit('csrw', 0, w, 0, 0x7C0)
+        else: s.emit('addi', w, w, 0, 5)
+      s.items.append(('label', L))
+      s.emit('csrw', 0, v, 0, 0x7C0)                              # first instruction at the target
+      s.emit('addi', v, v, 0, 1); s.emit('csrw', 0, v, 0, 0x7C0)
+
+  def membr_program(s):
+    rng = s.rng
+    for p in P_REGS: s.emit('csrr', p, 0, 0, 0xFC0)
+    for r in G_REGS[:10]: s.emit('addi', r, 0, 0, 16 + r)
+    while s.count < s.size:
+      s.membr()
+      for _ in range(rng.choice([0, 0, 1, 2])): s.one(2)
+    s.epilogue()
+    return s.items
 
   def xcsr(s):
     return s.rng.choice([0x7E0, 0x7E0, 0x7E1, 0x7E5, 0x7F0, 0x7FE, 0x7FF]) if s.rng.random() < 0.8 else s.rng.randint(0x7E0, 0x7FF)
@@ -394,10 +444,10 @@ def image_words(mem_image):
 
 def gen_program(rng, size, fuel, family='mixed'):
   """rejection-sample a program that the ISA (the direct oracle) defines completely and that terminates.
-  family: 'mixed' (everything), 'alias' (false-producer patterns only) or 'xcel' (accelerator patterns).
+  family: 'mixed' (everything), 'alias' (false-producer patterns only) 'xcel' (accelerator patterns) or 'membr' (memory operations right in front of branches).
   Returns dict(text, words, inp, insts, ref) with ref = oracle result."""
   for attempt in range(200):
-    g = Gen(rng, size); items = {'alias': g.alias_program, 'xcel': g.xcel_program, 'mixed': g.program}[family]()
+    g = Gen(rng, size); items = {'alias': g.alias_program, 'xcel': g.xcel_program, 'membr': g.membr_program, 'mixed': g.program}[family]()
     data = [rng.choice(VALS) if rng.random() < 0.3 else rng.getrandbits(32) for _ in range(NDATA)]
     text = to_text(items, data)
     img = assemble(text)
